@@ -161,6 +161,20 @@ impl<'a> G14<'a> {
         for i in inits {
             self.emit(&i);
         }
+        // sometimes two pool objects are large, with a length next to a power of two: a fast path or
+        // a bound keyed on a size is crossed in both directions
+        if self.rng.chance(1, 6) {
+            const SIZES: [usize; 15] = [15, 16, 17, 31, 32, 33, 63, 64, 65, 127, 128, 129, 255, 256, 257];
+            let k = SIZES[self.rng.usize(SIZES.len())];
+            let k2 = SIZES[self.rng.usize(SIZES.len())];
+            self.emit("(define (%iota n) (let loop ((i n) (acc '())) (if (= i 0) acc (loop (- i 1) (cons i acc)))))");
+            self.emit(&format!("(define p7 (%iota {}))", k));
+            if self.rng.chance(1, 2) {
+                self.emit(&format!("(define p4 (list->vector (%iota {})))", k2));
+            } else {
+                self.emit(&format!("(define p4 (make-vector {} 'f))", k2));
+            }
+        }
         self.dump();
     }
 
